@@ -417,6 +417,204 @@ impl World {
     }
 }
 
+/// JSON of the message for protocol line `line`, as a client of the collection kind `cur_kind` would encode it,
+/// plus the witness fields for the model (`recv=`, `iv=`/`ev=`).
+fn build_msg(op: &str, line: &str, cur_kind: &str) -> Option<(Value, String)> {
+    let id = || kv_u64(line, "id").unwrap().to_string();
+    let mut witness = String::new();
+    let nt = cur_kind == "nt";
+    let msg: Value = match op {
+        "transfer" => json!({"transfer_nft": {"recipient": my_addr(kv_u64(line, "to").unwrap()), "token_id": id()}}),
+        "send" => {
+            let to = kv_u64(line, "to").unwrap();
+            let fail = kv_u64(line, "payload").unwrap() == 0;
+            let recv = (to == STUB_A || to == STUB_B) && !fail;
+            witness = format!(" recv={}", recv as u8);
+            json!({"send_nft": {"contract": my_addr(to), "token_id": id(), "msg": Binary::from(if fail { &b"fail"[..] } else { &b"fine"[..] })}})
+        }
+        "approve" => json!({"approve": {"spender": my_addr(kv_u64(line, "sp").unwrap()), "token_id": id(), "expires": exp_json(kv(line, "exp").unwrap())}}),
+        "revoke" => json!({"revoke": {"spender": my_addr(kv_u64(line, "sp").unwrap()), "token_id": id()}}),
+        "approve_all" => json!({"approve_all": {"operator": my_addr(kv_u64(line, "op").unwrap()), "expires": exp_json(kv(line, "exp").unwrap())}}),
+        "revoke_all" => json!({"revoke_all": {"operator": my_addr(kv_u64(line, "op").unwrap())}}),
+        "mint" => {
+            let ext = kv_u64(line, "ext").unwrap();
+            let extension = if cur_kind == "onchain" {
+                if ext > 0 {
+                    json!({"name": format!("n{ext}")})
+                } else {
+                    json!({})
+                }
+            } else {
+                Value::Null
+            };
+            json!({"mint": {"token_id": id(), "owner": my_addr(kv_u64(line, "owner").unwrap()),
+                "token_uri": kv_opt_u64(line, "uri").unwrap().map(uri_str), "extension": extension}})
+        }
+        "burn" => json!({"burn": {"token_id": id()}}),
+        "extension" => json!({"extension": {"msg": {}}}),
+        "uci" => {
+            let iv = kv_opt_u64(line, "image").unwrap().map(url_valid).unwrap_or(true);
+            let extv = match kv(line, "ext").unwrap() {
+                "-" | "none" => true,
+                v => url_valid(v.parse().unwrap()),
+            };
+            witness = format!(" iv={} ev={}", iv as u8, extv as u8);
+            let ext = match kv(line, "ext").unwrap() {
+                "-" | "none" => Value::Null,
+                v => json!(url_str(v.parse().unwrap())),
+            };
+            let roy = match kv(line, "roy").unwrap() {
+                "-" | "none" => Value::Null,
+                v => {
+                    let (p, s) = v.split_once(':').unwrap();
+                    json!({"payment_address": my_addr(p.parse().unwrap()), "share": share_str(s.parse().unwrap())})
+                }
+            };
+            let ci = json!({
+                "description": opt_s(line, "desc").map(|v| { let (x, y) = v.split_once(':').unwrap(); desc_str(x.parse().unwrap(), y.parse().unwrap()) }),
+                "image": kv_opt_u64(line, "image").unwrap().map(url_str),
+                "external_link": ext,
+                "explicit_content": match kv(line, "ec").unwrap() { "-" => Value::Null, "1" => json!(true), _ => json!(false) },
+                "royalty_info": roy,
+                "creator": kv_opt_u64(line, "creator").unwrap().map(my_addr),
+            });
+            if nt {
+                json!({"update_collection_info": {"new_collection_info": ci}})
+            } else {
+                json!({"update_collection_info": {"collection_info": ci}})
+            }
+        }
+        "ustt" => json!({"update_start_trading_time": kv_opt_u64(line, "t").unwrap().map(|t| t.to_string())}),
+        // `FreezeCollectionInfo` is a unit variant in sg721::ExecuteMsg, a struct variant in the nt/updatable enums
+        "freeze" => {
+            if cur_kind == "base" || cur_kind == "onchain" {
+                json!("freeze_collection_info")
+            } else {
+                json!({"freeze_collection_info": {}})
+            }
+        }
+        "own_transfer" => json!({"update_ownership": {"transfer_ownership": {"new_owner": my_addr(kv_u64(line, "to").unwrap()), "expiry": exp_json(kv(line, "exp").unwrap())}}}),
+        "own_accept" => json!({"update_ownership": "accept_ownership"}),
+        "own_renounce" => json!({"update_ownership": "renounce_ownership"}),
+        "freeze_meta" => json!({"freeze_token_metadata": {}}),
+        "utm" => json!({"update_token_metadata": {"token_id": id(), "token_uri": kv_opt_u64(line, "uri").unwrap().map(uri_str)}}),
+        "enable" => json!({"enable_updatable": {}}),
+        _ => return None,
+    };
+    Some((msg, witness))
+}
+
+// ------------------------------------------------------------------------------------------------ message surface
+
+/// One sample protocol line per message kind of the protocol.
+const SAMPLES: [&str; 18] = [
+    "transfer s=20 funds=- to=21 id=1",
+    "send s=20 funds=- to=1001 id=1 payload=1",
+    "approve s=20 funds=- sp=22 id=1 exp=h5",
+    "revoke s=20 funds=- sp=22 id=1",
+    "approve_all s=20 funds=- op=22 exp=t7",
+    "revoke_all s=20 funds=- op=22",
+    "mint s=1000 funds=- id=1 owner=20 uri=3 ext=2",
+    "burn s=20 funds=- id=1",
+    "extension s=20 funds=-",
+    "uci s=10 funds=- direct=0 desc=1:10 image=0 ext=1 ec=1 roy=40:5 creator=11",
+    "ustt s=1000 funds=- t=5",
+    "freeze s=10 funds=-",
+    "own_transfer s=1000 funds=- to=20 exp=n",
+    "own_accept s=20 funds=-",
+    "own_renounce s=1000 funds=-",
+    "freeze_meta s=10 funds=-",
+    "utm s=10 funds=- id=1 uri=4",
+    "enable s=10 funds=-",
+];
+
+// Wildcard-free matches: adding, removing or renaming a variant of any of the three `ExecuteMsg` enums makes this
+// file fail to compile (reported by ./check as a broken correspondence) instead of being silently ignored.
+fn op_of_sg721(m: &sg721::ExecuteMsg<sg_metadata::Metadata, Empty>) -> &'static str {
+    use sg721::ExecuteMsg as M;
+    match m {
+        M::TransferNft { .. } => "transfer",
+        M::SendNft { .. } => "send",
+        M::Approve { .. } => "approve",
+        M::Revoke { .. } => "revoke",
+        M::ApproveAll { .. } => "approve_all",
+        M::RevokeAll { .. } => "revoke_all",
+        M::Mint { .. } => "mint",
+        M::Burn { .. } => "burn",
+        M::Extension { .. } => "extension",
+        M::UpdateCollectionInfo { .. } => "uci",
+        M::UpdateStartTradingTime(_) => "ustt",
+        M::FreezeCollectionInfo => "freeze",
+        M::UpdateOwnership(cw_ownable::Action::TransferOwnership { .. }) => "own_transfer",
+        M::UpdateOwnership(cw_ownable::Action::AcceptOwnership) => "own_accept",
+        M::UpdateOwnership(cw_ownable::Action::RenounceOwnership) => "own_renounce",
+    }
+}
+fn op_of_nt(m: &sg721_nt::msg::ExecuteMsg<cw721_base::Extension>) -> &'static str {
+    use sg721_nt::msg::ExecuteMsg as M;
+    match m {
+        M::Mint { .. } => "mint",
+        M::Burn { .. } => "burn",
+        M::UpdateCollectionInfo { .. } => "uci",
+        M::FreezeCollectionInfo {} => "freeze",
+    }
+}
+fn op_of_updatable(m: &sg721_updatable::msg::ExecuteMsg<cw721_base::Extension, Empty>) -> &'static str {
+    use sg721_updatable::msg::ExecuteMsg as M;
+    match m {
+        M::FreezeTokenMetadata {} => "freeze_meta",
+        M::UpdateTokenMetadata { .. } => "utm",
+        M::EnableUpdatable {} => "enable",
+        M::TransferNft { .. } => "transfer",
+        M::SendNft { .. } => "send",
+        M::Approve { .. } => "approve",
+        M::Revoke { .. } => "revoke",
+        M::ApproveAll { .. } => "approve_all",
+        M::RevokeAll { .. } => "revoke_all",
+        M::Burn { .. } => "burn",
+        M::UpdateCollectionInfo { .. } => "uci",
+        M::UpdateStartTradingTime(_) => "ustt",
+        M::FreezeCollectionInfo {} => "freeze",
+        M::Mint { .. } => "mint",
+        M::Extension { .. } => "extension",
+    }
+}
+
+/// The message surface the model assumes (`LP.Sg721.supported`), checked against the real enums: every sample line
+/// is encoded as the harness encodes it and decoded with the contract's own deserialiser (serde-json-wasm).
+fn surface_check(ses: &mut Session) {
+    let model_supported = |kind: &str, op: &str| -> bool {
+        match kind {
+            "nt" => matches!(op, "mint" | "burn" | "uci" | "freeze"),
+            "updatable" => !op.starts_with("own_"),
+            _ => !matches!(op, "freeze_meta" | "utm" | "enable"),
+        }
+    };
+    for kind in ["base", "nt", "updatable", "onchain"] {
+        for line in SAMPLES {
+            let op = line.split_whitespace().next().unwrap();
+            let (msg, _) = build_msg(op, line, kind).unwrap();
+            let bytes = serde_json::to_vec(&msg).unwrap();
+            let decoded: Option<&'static str> = match kind {
+                "base" => cosmwasm_std::from_json::<sg721::ExecuteMsg<cw721_base::Extension, Empty>>(&bytes).ok().map(|_| {
+                    // same enum as onchain up to the extension type; map the variant through the onchain decoding
+                    cosmwasm_std::from_json::<sg721::ExecuteMsg<sg_metadata::Metadata, Empty>>(
+                        &serde_json::to_vec(&build_msg(op, line, "onchain").unwrap().0).unwrap(),
+                    )
+                    .map(|m| op_of_sg721(&m))
+                    .unwrap_or("?")
+                }),
+                "onchain" => cosmwasm_std::from_json::<sg721::ExecuteMsg<sg_metadata::Metadata, Empty>>(&bytes).ok().map(|m| op_of_sg721(&m)),
+                "nt" => cosmwasm_std::from_json::<sg721_nt::msg::ExecuteMsg<cw721_base::Extension>>(&bytes).ok().map(|m| op_of_nt(&m)),
+                _ => cosmwasm_std::from_json::<sg721_updatable::msg::ExecuteMsg<cw721_base::Extension, Empty>>(&bytes).ok().map(|m| op_of_updatable(&m)),
+            };
+            let want = if model_supported(kind, op) { Some(op) } else { None };
+            assert_eq!(decoded, want, "message surface of sg721-{kind} differs from the model for `{line}` (json {msg})");
+            ses.mark(format!("surface:{kind}:{op}:{}", decoded.is_some()));
+        }
+    }
+}
+
 // ------------------------------------------------------------------------------------------------ Sut
 
 #[derive(Clone, Debug, Default)]
@@ -528,101 +726,16 @@ impl S {
     fn run_msg(&mut self, op: &str, line: &str) -> (String, Option<bool>) {
         let sender = kv_u64(line, "s").unwrap();
         let funds = funds_of(line);
-        let id = || kv_u64(line, "id").unwrap().to_string();
-        let mut model_line = line.to_string();
         // the code the contract runs NOW (a migrated sg721-base is an sg721-updatable)
         let cur_kind = self.cur.as_ref().map(|o| o.kind.clone()).unwrap_or(self.kind.clone());
-        let nt = cur_kind == "nt";
+        let Some((msg, witness)) = build_msg(op, line, &cur_kind) else { return (line.to_string(), None) };
+        let model_line = format!("{line}{witness}");
         let Some(coll) = self.w.coll.clone() else {
-            // no collection yet: nothing to call; keep the witnesses well-formed for the model
-            match op {
-                "send" => model_line.push_str(" recv=0"),
-                "uci" => model_line.push_str(" iv=1 ev=1"),
-                _ => {}
-            }
-            return (model_line, Some(false));
+            return (model_line, Some(false)); // no collection yet: nothing to call
         };
-        let msg: Value = match op {
-            "transfer" => json!({"transfer_nft": {"recipient": my_addr(kv_u64(line, "to").unwrap()), "token_id": id()}}),
-            "send" => {
-                let to = kv_u64(line, "to").unwrap();
-                let fail = kv_u64(line, "payload").unwrap() == 0;
-                let recv = (to == STUB_A || to == STUB_B) && !fail;
-                model_line.push_str(&format!(" recv={}", recv as u8));
-                json!({"send_nft": {"contract": my_addr(to), "token_id": id(), "msg": Binary::from(if fail { &b"fail"[..] } else { &b"fine"[..] })}})
-            }
-            "approve" => json!({"approve": {"spender": my_addr(kv_u64(line, "sp").unwrap()), "token_id": id(), "expires": exp_json(kv(line, "exp").unwrap())}}),
-            "revoke" => json!({"revoke": {"spender": my_addr(kv_u64(line, "sp").unwrap()), "token_id": id()}}),
-            "approve_all" => json!({"approve_all": {"operator": my_addr(kv_u64(line, "op").unwrap()), "expires": exp_json(kv(line, "exp").unwrap())}}),
-            "revoke_all" => json!({"revoke_all": {"operator": my_addr(kv_u64(line, "op").unwrap())}}),
-            "mint" => {
-                let ext = kv_u64(line, "ext").unwrap();
-                let extension = if cur_kind == "onchain" {
-                    if ext > 0 {
-                        json!({"name": format!("n{ext}")})
-                    } else {
-                        json!({})
-                    }
-                } else {
-                    Value::Null
-                };
-                json!({"mint": {"token_id": id(), "owner": my_addr(kv_u64(line, "owner").unwrap()),
-                    "token_uri": kv_opt_u64(line, "uri").unwrap().map(uri_str), "extension": extension}})
-            }
-            "burn" => json!({"burn": {"token_id": id()}}),
-            "extension" => json!({"extension": {"msg": {}}}),
-            "uci" => {
-                let iv = kv_opt_u64(line, "image").unwrap().map(url_valid).unwrap_or(true);
-                let extv = match kv(line, "ext").unwrap() {
-                    "-" | "none" => true,
-                    v => url_valid(v.parse().unwrap()),
-                };
-                model_line.push_str(&format!(" iv={} ev={}", iv as u8, extv as u8));
-                if kv_bool(line, "direct").unwrap_or(false) {
-                    return (model_line, Some(self.uci_direct(line, &coll, sender, funds)));
-                }
-                let ext = match kv(line, "ext").unwrap() {
-                    "-" | "none" => Value::Null,
-                    v => json!(url_str(v.parse().unwrap())),
-                };
-                let roy = match kv(line, "roy").unwrap() {
-                    "-" | "none" => Value::Null,
-                    v => {
-                        let (p, s) = v.split_once(':').unwrap();
-                        json!({"payment_address": my_addr(p.parse().unwrap()), "share": share_str(s.parse().unwrap())})
-                    }
-                };
-                let ci = json!({
-                    "description": opt_s(line, "desc").map(|v| { let (x, y) = v.split_once(':').unwrap(); desc_str(x.parse().unwrap(), y.parse().unwrap()) }),
-                    "image": kv_opt_u64(line, "image").unwrap().map(url_str),
-                    "external_link": ext,
-                    "explicit_content": match kv(line, "ec").unwrap() { "-" => Value::Null, "1" => json!(true), _ => json!(false) },
-                    "royalty_info": roy,
-                    "creator": kv_opt_u64(line, "creator").unwrap().map(my_addr),
-                });
-                if nt {
-                    json!({"update_collection_info": {"new_collection_info": ci}})
-                } else {
-                    json!({"update_collection_info": {"collection_info": ci}})
-                }
-            }
-            "ustt" => json!({"update_start_trading_time": kv_opt_u64(line, "t").unwrap().map(|t| t.to_string())}),
-            // `FreezeCollectionInfo` is a unit variant in sg721::ExecuteMsg, a struct variant in the nt/updatable enums
-            "freeze" => {
-                if cur_kind == "base" || cur_kind == "onchain" {
-                    json!("freeze_collection_info")
-                } else {
-                    json!({"freeze_collection_info": {}})
-                }
-            }
-            "own_transfer" => json!({"update_ownership": {"transfer_ownership": {"new_owner": my_addr(kv_u64(line, "to").unwrap()), "expiry": exp_json(kv(line, "exp").unwrap())}}}),
-            "own_accept" => json!({"update_ownership": "accept_ownership"}),
-            "own_renounce" => json!({"update_ownership": "renounce_ownership"}),
-            "freeze_meta" => json!({"freeze_token_metadata": {}}),
-            "utm" => json!({"update_token_metadata": {"token_id": id(), "token_uri": kv_opt_u64(line, "uri").unwrap().map(uri_str)}}),
-            "enable" => json!({"enable_updatable": {}}),
-            _ => return (model_line, None),
-        };
+        if op == "uci" && kv_bool(line, "direct").unwrap_or(false) {
+            return (model_line, Some(self.uci_direct(line, &coll, sender, funds)));
+        }
         (model_line, Some(self.w.send(sender, &coll, &msg, &funds)))
     }
 
@@ -1121,8 +1234,12 @@ impl G {
             let id = self.token_id(o, want);
             let (s, role) = match o.tok(id) {
                 Some(t) if valid => {
+                    // owner or one of the owner's operators may approve
                     let t = t.clone();
-                    let m = self.mover(o, &t);
+                    let mut m = self.mover(o, &t);
+                    if m.1 == "approved" {
+                        m = (t.owner, "owner");
+                    }
                     m
                 }
                 _ => (self.any_sender(), "any"),
@@ -1189,7 +1306,8 @@ impl G {
             (format!("freeze s={s} funds={f}"), role)
         } else if pick < 86 {
             // ownership hand-over
-            match self.rng.below(6) {
+            let r = if o.pending.is_some() && self.rng.chance(1, 2) { 3 } else { self.rng.below(6) };
+            match r {
                 0 | 1 | 2 => {
                     let (s, role) = if valid && minter.is_some() { (minter.unwrap(), "minter") } else { (self.any_sender(), "any") };
                     let to = if self.rng.chance(1, 10) { *self.rng.pick(&INVALID) } else { *self.rng.pick(&[STUB_A, STUB_B, 20, 10]) };
@@ -1528,9 +1646,10 @@ fn main() {
         ses.finish(&mut sut);
     }
     let mut g = G { rng: ses.rng.fork(), h: 100, t: T0 };
+    surface_check(&mut ses);
     scripted(&mut ses, &mut sut);
     let kinds = ["base", "nt", "updatable", "onchain"];
-    let per_kind = ses.scale(90, 4500);
+    let per_kind = ses.scale(250, 3000);
     for kind in kinds {
         for i in 0..per_kind {
             let n_ops = 30 + g.rng.below(60);
